@@ -74,6 +74,30 @@ def enum_arg(s):
     return (s or "").split("::")[-1]
 
 
+def check_only_via(rep, db, label, cnt=lambda k: None):
+    """R-C04-only-via: who may call the backend's pointer translation hooks"""
+    for fn, callee, loc in scan_callers(db, IMPL):
+        cnt("via")
+        ok = (fn["n"].startswith(SB + "::") and fn["sn"] in ENTRY and ENTRY[fn["sn"]][0] == callee) or \
+             (fn["n"] == SB + "::get_app_pointer" and callee == "impl_get_unsandboxed_pointer") or \
+             fn["sn"].startswith("impl_")
+        if not ok and fn["n"].startswith("rlbox::") and self_guarded_translation(db, fn):
+            # the function carries the null short-circuit itself: on every path the backend hook is called only with an argument
+            # that was tested non-null / non-zero (the entry points' bodies moved into a helper that others may call too)
+            ok = True
+        encl = db.rec_by_id.get(fn.get("rid")) or {}
+        hidden = fn.get("access") in (1, 2) or (encl.get("access") in (1, 2) and (encl.get("n") or "").startswith(SB + "::"))
+        if not ok and fn["n"].startswith(SB + "::") and hidden:
+            # a non-public helper shared by the entry points: its callers must all be entry points (R-C04-null then judges the
+            # null short-circuit and the choice of backend hook on each entry point with the helper inlined)
+            from .owners import reached_only_from
+            ok = reached_only_from(db, fn["n"], {SB + "::" + e_ for e_ in ENTRY} | {SB + "::get_app_pointer"})
+        if ok:
+            rep.ok("R-C04-only-via", fn["n"], "calls %s" % callee, "%s | %s" % (label, loc), nontrivial=False)
+        else:
+            rep.violation("R-C04-only-via", fn["n"] + " [direct backend translation]", "%s calls %s directly, bypassing the null short-circuit of the translation entry points" % (fn["n"], callee), loc, label)
+
+
 def run(rep, tier):
     rep.rule("R-C04-null", "in each of the four translation entry points the backend translation is reachable only when the representation/address is non-zero, and the zero case returns null/0 without calling the backend")
     rep.rule("R-C04-only-via", "impl_get_[un]sandboxed_pointer[_no_ctx] are called only from those four entry points, from get_app_pointer (token proven non-zero by C15) and from the backend itself")
@@ -94,26 +118,7 @@ def run(rep, tier):
     for db in dbs:
         rep.units.append(db.label)
         label = db.label
-        for fn, callee, loc in scan_callers(db, IMPL):
-            cnt("via")
-            ok = (fn["n"].startswith(SB + "::") and fn["sn"] in ENTRY and ENTRY[fn["sn"]][0] == callee) or \
-                 (fn["n"] == SB + "::get_app_pointer" and callee == "impl_get_unsandboxed_pointer") or \
-                 fn["sn"].startswith("impl_")
-            if not ok and fn["n"].startswith("rlbox::") and self_guarded_translation(db, fn):
-                # the function carries the null short-circuit itself: on every path the backend hook is called only with an argument
-                # that was tested non-null / non-zero (the entry points' bodies moved into a helper that others may call too)
-                ok = True
-            encl = db.rec_by_id.get(fn.get("rid")) or {}
-            hidden = fn.get("access") in (1, 2) or (encl.get("access") in (1, 2) and (encl.get("n") or "").startswith(SB + "::"))
-            if not ok and fn["n"].startswith(SB + "::") and hidden:
-                # a non-public helper shared by the entry points: its callers must all be entry points (R-C04-null then judges the
-                # null short-circuit and the choice of backend hook on each entry point with the helper inlined)
-                from .owners import reached_only_from
-                ok = reached_only_from(db, fn["n"], {SB + "::" + e_ for e_ in ENTRY} | {SB + "::get_app_pointer"})
-            if ok:
-                rep.ok("R-C04-only-via", fn["n"], "calls %s" % callee, "%s | %s" % (label, loc), nontrivial=False)
-            else:
-                rep.violation("R-C04-only-via", fn["n"] + " [direct backend translation]", "%s calls %s directly, bypassing the null short-circuit of the translation entry points" % (fn["n"], callee), loc, label)
+        check_only_via(rep, db, label, cnt)
         # the registry the context-free translations search must keep every live sandbox: destroy removes exactly its own entry
         from ..report import RuleView as _RV
         for f_ in db.functions:
